@@ -265,10 +265,10 @@ func crashMain(r *vlib.Run, x *searcher) {
 			jobs = append(jobs, crashJob{p, t})
 		}
 	}
-	recOps := []Op{byName["build:top"], byName["build:mid"], byName["build:gen"], byName["edit:src/a.txt"], byName["delete:gen/g.txt"]}
+	recOps := []Op{byName["build:top"], byName["build:mid"], byName["build:gen"], byName["build:leaf"], byName["dry:top"], byName["edit:src/a.txt"], byName["delete:gen/g.txt"]}
 	recDepth := 2
 	if r.Thorough() {
-		recOps = append(recOps, byName["build:leaf"], byName["const:K"], byName["fail:mid"], byName["dry:top"], byName["gc:full"])
+		recOps = append(recOps, byName["const:K"], byName["fail:mid"], byName["gc:full"])
 		recDepth = 3
 	}
 	r.Distribute(len(jobs), func(ji int) {
